@@ -176,7 +176,15 @@ def check_case(seed, acc):
             if unc and raised is not None:
                 names = {" / ".join(u) for u in unc}
                 if raised not in names:
-                    acc.violation("C06/strict-mode/error-names-wrong-row", "the strict-mode error does not name an uncovered row", dict(w, raised=raised, uncovered=sorted(names)[:5]))
+                    # a row that only the documented compile / winner rules leave uncovered is the known mechanism showing up in strict mode
+                    key = "C06/strict-mode/error-names-wrong-row"
+                    for mode, k2 in (("property", KNOWN_GLOBAL_MERGE), ("winner", KNOWN_WINNER)):
+                        u2 = []
+                        ref_filter(level, pt, prefix, mode, u2, ideal=False)
+                        if raised in {" / ".join(u) for u in u2}:
+                            key = k2
+                            break
+                    acc.violation(key, WHAT.get(key, "the strict-mode error does not name an uncovered row"), dict(w, which=name, raised=raised, uncovered=sorted(names)[:5]))
     # monotonicity of merging
     if not neg and "A" in res and "B" in res and "A+B" in res:
         acc.count("monotone_checked")
